@@ -92,6 +92,8 @@ def break_value(v, rnd):
     from graphql.pyutils import Undefined
     edge = [True, 0, 2 ** 31, -2 ** 31 - 1, 10 ** 400, 1.5, float("nan"), float("inf"), "", "NOPE", [], {}, (1, 2), {1}, b"x", object(), Undefined, None, [None], {"zzz": 1}]
     r = rnd.random()
+    if isinstance(v, (dict, list)) and r < 0.2:
+        return recontain(v, rnd)
     if isinstance(v, dict) and v and r < 0.5:
         k = rnd.choice(list(v))
         w = dict(v)
@@ -108,6 +110,19 @@ def break_value(v, rnd):
         w[i] = break_value(w[i], rnd)
         return w
     return rnd.choice(edge)
+
+
+def recontain(v, rnd):
+    """the same content in another container class: the two functions must keep agreeing on which containers they take"""
+    import collections
+    import types
+    if isinstance(v, dict):
+        w = {k: (recontain(x, rnd) if isinstance(x, (dict, list)) and rnd.random() < 0.3 else x) for k, x in v.items()}
+        return rnd.choice([lambda: types.MappingProxyType(w), lambda: collections.ChainMap(w), lambda: collections.UserDict(w),
+                           lambda: collections.OrderedDict(w), lambda: collections.defaultdict(int, w)])()
+    w = [(recontain(x, rnd) if isinstance(x, (dict, list)) and rnd.random() < 0.3 else x) for x in v]
+    return rnd.choice([lambda: tuple(w), lambda: collections.deque(w), lambda: collections.UserList(w), lambda: iter(w) if False else w,
+                       lambda: (x for x in w) if False else tuple(w), lambda: frozenset(w) if all(isinstance(x, (int, str)) for x in w) else tuple(w)])()
 
 
 class VarRef:
